@@ -617,6 +617,11 @@ func (p *twkbParser) parsePointCountAndArray() ([]float64, int, error) {
 // Utilise and update the running memory of the previous reference point.
 // The returned array will contain numPoints * the number of dimensions values.
 func (p *twkbParser) parsePointArray(numPoints int) ([]float64, error) {
+	// Each coordinate takes at least one byte, so reject counts that cannot
+	// be satisfied by the remaining input before allocating space for them.
+	if numPoints < 0 || numPoints > (len(p.twkb)-p.pos)/p.dimensions {
+		return nil, fmt.Errorf("number of points %d exceeds remaining input", numPoints)
+	}
 	coords := make([]float64, numPoints*p.dimensions)
 	c := 0
 	for i := 0; i < numPoints; i++ {
@@ -635,6 +640,11 @@ func (p *twkbParser) parsePointArray(numPoints int) ([]float64, error) {
 }
 
 func (p *twkbParser) parseIDList(numIDs int) error {
+	// Each ID takes at least one byte, so reject counts that cannot be
+	// satisfied by the remaining input before allocating space for them.
+	if numIDs < 0 || numIDs > len(p.twkb)-p.pos {
+		return fmt.Errorf("ID list size %d exceeds remaining input", numIDs)
+	}
 	p.idList = make([]int64, numIDs)
 	for i := 0; i < numIDs; i++ {
 		id, err := p.parseSignedVarint()
